@@ -53,7 +53,7 @@ def cases(plan, tier, shard, nshards, host):
     if host == common.PRIMARY:
         items += [{"kind": "ints", "lo": lo, "hi": lo + 1024} for lo in range(0, 65536, 1024)]
         items += [{"kind": "registry", "row": r} for r in plan["registry"]]
-        items.append({"kind": "names"})
+        items.append({"kind": "names", "reg": plan["registry"]})
     for it in items:
         if n % nshards == shard:
             yield it
@@ -61,7 +61,7 @@ def cases(plan, tier, shard, nshards, host):
 
 
 def case_key(c):
-    return repr(sorted((k, repr(v)) for k, v in c.items() if k != "real"))
+    return repr(sorted((k, repr(v)) for k, v in c.items() if k not in ("real", "reg")))
 
 
 def describe(c):
@@ -158,12 +158,39 @@ def run_case(case, ctx):
         if X.versions.get(b) != X.magicint2version[m] or b not in X.by_magic:
             ctx.violation("registry-tables:%d" % m, "versions/by_magic rows disagree with magicint2version")
     elif k == "names":
+        by_name = {}
+        for m_, nm_ in X.magicint2version.items():
+            by_name.setdefault(nm_, []).append(m_)
+        for nm_, ms_ in sorted(by_name.items()):
+            ctx.count("registered_names")
+            if nm_ in X.magics and X.magic2int(X.magics[nm_]) not in ms_:
+                ctx.violation("name-roundtrip:%s" % nm_, "magic(s) %s are registered as %r, but magics[%r] is %d" % (ms_, nm_, nm_, X.magic2int(X.magics[nm_])))
         for name, mg in sorted(X.magics.items(), key=lambda kv: str(kv[0])):
             ctx.count("release_names")
             if not isinstance(name, str):
                 continue
             if X.by_version.get(name) is None and name not in X.canonic_python_version:
                 ctx.violation("name-unindexed:%s" % name, "release name not in by_version / canonic_python_version")
+            # a pre-release name in any of the spellings the tables use ("3.6b2", "3.8.0a1", "3.7.0beta3", "3.12.0rc2"): its magic
+            # must be one the CPython registry lists for that pre-release
+            qm = re.match(r"^(\d)\.(\d+)(?:\.0)?(a|alpha|b|beta|rc|c|candidate)(\d+)$", name)
+            if qm:
+                tag = {"a": "a", "alpha": "a", "b": "b", "beta": "b", "rc": "rc", "c": "rc", "candidate": "rc"}[qm.group(3)] + qm.group(4)
+                qv = (int(qm.group(1)), int(qm.group(2)))
+                rows = [m_ for (m_, v_, t_) in case["reg"] if tuple(v_) == qv]
+                listed = [m_ for (m_, v_, t_) in case["reg"] if tuple(v_) == qv and t_ == tag]
+                # alphas are left out: the registry labels a magic with the release "in development" and those labels were
+                # renumbered between CPython versions (3.2a0/a1/a2 became a1/a2/a3); beta and candidate labels are stable
+                alpha_magics = [m_ for (m_, v_, t_) in case["reg"] if tuple(v_) == qv and t_.startswith("a")]
+                if tag.startswith("a") and alpha_magics and X.magic2int(mg) not in alpha_magics and X.magic2int(mg) in rows:
+                    ctx.violation("alpha-name-with-later-magic:%s" % name, "magics[%r] is %d, which the registry introduces after the alphas of %d.%d (%s)"
+                                  % (name, X.magic2int(mg), qv[0], qv[1], alpha_magics))
+                if listed and not tag.startswith("a"):
+                    ctx.count("pre_release_names_with_registry_rows")
+                    # the registry tags a magic with the *first* pre-release that wrote it; that pre-release may have written
+                    # several (all rows with its tag), nothing else
+                    if X.magic2int(mg) not in listed:
+                        ctx.violation("pre-release-name-magic:%s" % name, "magics[%r] is %d, CPython's registry lists %s for %d.%d%s" % (name, X.magic2int(mg), listed, qv[0], qv[1], tag))
             # a pre-release the tables name ("3.8.0a1", "3.12.0rc2"): sysinfo2magic of that interpreter's sys.version_info
             pm = re.match(r"^(\d)\.(\d+)\.(\d+)(a|b|rc|c)(\d+)$", name)
             if pm:
